@@ -899,7 +899,15 @@ def _np_minmax(is_min):
                     return fv.load(s, x, [k], node, prog=False)
                 return x
 
-            r = fv.to_float(_minmax_scalar(fv, s, elem(a), elem(b), node, prog, is_min))
+            ea, eb = elem(a), elem(b)
+            if isinstance(ea, SInt) and isinstance(eb, SInt) and isinstance(a, SArr) and isinstance(b, SArr):
+                da, db_ = st.heap[a.loc].dtype, st.heap[b.loc].dtype
+                if da != db_:
+                    _err("np.minimum/maximum on integer arrays of different dtypes")
+                USED.add("np.minimum / np.maximum elementwise on two 1-D integer arrays of one dtype: integer array of that dtype")
+                c_ = (ea.e <= eb.e) if is_min else (ea.e >= eb.e)
+                return fv.new_loc(st, da, [shp[0]], {"v": z3.Lambda([k], z3.If(c_, ea.e, eb.e))}, name="ew")
+            r = fv.to_float(_minmax_scalar(fv, s, ea, eb, node, prog, is_min))
             comps = {"v": z3.Lambda([k], r.v), "ninf": z3.Lambda([k], r.ninf), "nan": z3.Lambda([k], r.nan)}
             return fv.new_loc(st, "f8", [shp[0]], comps, name="ew")
         return _minmax_scalar(fv, st, a, b, node, prog, is_min)
